@@ -198,6 +198,66 @@ func runC20(res *Result, rng *RNG, tier string, outDir string) {
 			}
 		}
 	}
+	// no source supplied at all (nil): the operations fall back to the system source; they must succeed,
+	// twice in a row give different next keys, and the tokens must verify.  (Not a model case: the bytes drawn
+	// are not observable.)
+	for _, op := range ops {
+		var secrets []string
+		for rep := 0; rep < 2; rep++ {
+			var tok *biscuit.Biscuit
+			var opErr error
+			panicked := ""
+			func() {
+				defer func() {
+					if r := recover(); r != nil {
+						panicked = fmt.Sprint(r)
+					}
+				}()
+				switch op {
+				case "Build":
+					b := biscuit.NewBuilder(priv)
+					if rep == 1 {
+						b = biscuit.NewBuilder(priv, biscuit.WithRNG(nil))
+					}
+					b.AddAuthorityFact(fact)
+					tok, opErr = b.Build()
+				case "New":
+					bb := biscuit.NewBlockBuilder(twinSymbols())
+					bb.AddFact(fact)
+					tok, opErr = biscuit.New(nil, priv, twinSymbols(), bb.Build())
+				case "Append":
+					tok, opErr = twin.Append(nil, mkBlock(twin))
+				}
+			}()
+			desc := fmt.Sprintf("%s with no source (nil) #%d", op, rep)
+			res.Count(desc, true)
+			res.Dist("nil-source")
+			replay := map[string]interface{}{"op": op, "style": "nil source", "root_seed": fmt.Sprintf("%x", rootSeed)}
+			switch {
+			case panicked != "":
+				res.Violate("panic:"+op, op+" without a random source panicked: "+panicked, replay)
+			case opErr != nil || tok == nil:
+				res.Violate("spurious-error:"+op, fmt.Sprintf("%s without a random source (system source) failed: %v", op, opErr), replay)
+			default:
+				c := containerOf(tok)
+				if c.ProofKind != 0 || len(c.Proof) != 32 {
+					res.Violate("wrong-secret:"+op, op+": no 32-byte next secret", replay)
+					continue
+				}
+				want := ed25519.NewKeyFromSeed(c.Proof).Public().(ed25519.PublicKey)
+				if string(c.last().Key) != string(want) {
+					res.Violate("wrong-next-key:"+op, op+": announced key is not derived from the next secret", replay)
+				}
+				if _, err := tok.AuthorizerFor(biscuit.WithSingularRootPublicKey(pub)); err != nil {
+					res.Violate("not-verifying:"+op, fmt.Sprintf("%s: returned token does not verify: %v", op, err), replay)
+				}
+				secrets = append(secrets, string(c.Proof))
+			}
+		}
+		if len(secrets) == 2 && secrets[0] == secrets[1] {
+			res.Violate("degenerate-key:"+op, op+" without a random source produced the same next secret twice", map[string]interface{}{"op": op, "style": "nil source"})
+		}
+	}
 	res.ModelCases = len(caseLines)
 	cf.Raw(orc.coq(""))
 	cf.Raw("Definition cases : list chain_case := [\n  " + joinLines(caseLines) + "].\n")
